@@ -142,6 +142,9 @@ def make_inputs(ctx):
                         for k in range(len(r)):
                             r[k] = r[k] * 2.0 ** -12          # a power of two: every later product stays exact
         cats.append(spec)
+    # the same kind of catalog with every column stored big-endian
+    cats.append(dict(box=750.0, zkms=1250.0, nrows=nrows, halo=hs.gen_values(rng, hs.raw_schema(), nrows),
+                     cleaned=hs.gen_values(rng, hs.cleaned_schema(), nrows), kind='big-endian', big_endian=True))
     for (b, z) in lcs:
         cats.append(dict(box=b, zkms=z, nrows=nrows, halo=hs.gen_values(rng, hs.lc_schema(), nrows), cleaned=None,
                          lc=True, kind='lc'))
